@@ -750,9 +750,15 @@ class ExcelCompiler:
             if excel_data.address != address:
                 # if the actual data returned is not the same as the address
                 # given, then use a reference
-                self.cell_map[str(address)] = self.Cell(
+                ref_cell = self.Cell(
                     address, formula=REF_FORMAT.format(excel_data.address),
                     excel=self.excel)
+                self.cell_map[str(address)] = ref_cell
+
+                # the reference depends on the range it refers to, and like
+                # a range it gets its value as soon as the graph is built
+                add_node_to_graph(ref_cell)
+                self.range_todos.append(str(address))
 
             self.range_todos.append(str(excel_data.address))
             new_nodes = build_range(excel_data)
